@@ -214,18 +214,21 @@ theorem accepted_update_writes_all (T : Tables) (u : UpdFn) (inp : UpdInput) (h 
       kv.1 = ⟨u, u.normArgs e.args, it.1.map Arg.norm⟩ ∧ u.validate it.2 = .ok kv.2 :=
   ⟨updPuts_complete T u inp h, updPuts_sub T u inp⟩
 
-theorem field_ok {r : Rate} {n : String} {a : Arr} (h : field r n = .ok a) : alookup n r = some a := by
+/-- `a` is literally the outcome of one of the two conversions of an object the caller passed -/
+def ArrIn (r : Rate) (a : Arr) : Prop := ∃ n x, alookup n r = some x ∧ (x.arr = .ok a ∨ x.flt = .ok a)
+
+theorem field_ok {r : Rate} {n : String} {a : Arr} (h : field r n = .ok a) : ArrIn r a := by
   unfold field at h; split at h
-  · next h' => cases h; exact h'
+  · next x h' => exact ⟨n, x, h', Or.inl h⟩
   · cases h
 
-theorem asFloat_ok {a b : Arr} (h : asFloat a = .ok b) : b = a := by
-  unfold asFloat at h; split at h
-  · cases h; rfl
+theorem fieldF_ok {r : Rate} {n : String} {a : Arr} (h : fieldF r n = .ok a) : ArrIn r a := by
+  unfold fieldF at h; split at h
+  · next x h' => exact ⟨n, x, h', Or.inr h⟩
   · cases h
 
 theorem pairCheck_ok {r : Rate} {x y : String} {a b : Arr} (h : pairCheck r x y = .ok (a, b)) :
-    alookup x r = some a ∧ alookup y r = some b := by
+    ArrIn r a ∧ ArrIn r b := by
   unfold pairCheck at h
   cases h1 : field r x with
   | error e => rw [h1] at h; cases h
@@ -243,10 +246,11 @@ theorem pairCheck_ok {r : Rate} {x y : String} {a b : Arr} (h : pairCheck r x y 
           · cases h
           · cases h; exact ⟨field_ok h1, field_ok h2⟩
 
-/-- **bit for bit**: every array of a stored value is one of the arrays of the rate dictionary that was passed
-(validation only selects and renames — `'rates'` is stored as `'rate'` — it never recomputes) -/
+/-- **bit for bit**: every array of a stored value is the NumPy / `float` conversion of one of the objects of the rate
+dictionary that was passed (validation only converts, selects and renames — `'rates'` is stored as `'rate'` — it never
+recomputes) -/
 theorem stored_arrays_are_inputs (u : UpdFn) (r : Rate) (v : Val) (h : u.validate r = .ok v) :
-    ∀ na ∈ v, ∃ n, alookup n r = some na.2 := by
+    ∀ na ∈ v, ArrIn r na.2 := by
   have bindE : ∀ {α β : Type} (x : Except Err α) (f : α → Except Err β) (b : β),
       (x >>= f) = .ok b → ∃ a, x = .ok a ∧ f a = .ok b := by
     intro α β x f b hb; cases x with
@@ -268,9 +272,9 @@ theorem stored_arrays_are_inputs (u : UpdFn) (r : Rate) (v : Val) (h : u.validat
        intro na hna
        simp only [List.mem_cons, List.not_mem_nil, or_false] at hna
        rcases hna with rfl | rfl | rfl
-       · exact ⟨_, field_ok h1⟩
-       · exact ⟨_, field_ok h2⟩
-       · exact ⟨_, field_ok h3⟩)
+       · exact field_ok h1
+       · exact field_ok h2
+       · exact field_ok h3)
     | (unfold validatePec at h
        obtain ⟨ne, h1, h⟩ := bindE _ _ _ h
        obtain ⟨te, h2, h⟩ := bindE _ _ _ h
@@ -280,9 +284,9 @@ theorem stored_arrays_are_inputs (u : UpdFn) (r : Rate) (v : Val) (h : u.validat
        intro na hna
        simp only [List.mem_cons, List.not_mem_nil, or_false] at hna
        rcases hna with rfl | rfl | rfl
-       · exact ⟨_, field_ok h1⟩
-       · exact ⟨_, field_ok h2⟩
-       · exact ⟨_, field_ok h3⟩)
+       · exact field_ok h1
+       · exact field_ok h2
+       · exact field_ok h3)
     | (unfold validatePecThermalCx at h
        obtain ⟨ne, h1, h⟩ := bindE _ _ _ h
        obtain ⟨te, h2, h⟩ := bindE _ _ _ h
@@ -293,21 +297,19 @@ theorem stored_arrays_are_inputs (u : UpdFn) (r : Rate) (v : Val) (h : u.validat
        intro na hna
        simp only [List.mem_cons, List.not_mem_nil, or_false] at hna
        rcases hna with rfl | rfl | rfl | rfl
-       · exact ⟨_, field_ok h1⟩
-       · exact ⟨_, field_ok h2⟩
-       · exact ⟨_, field_ok h3⟩
-       · exact ⟨_, field_ok h4⟩)
+       · exact field_ok h1
+       · exact field_ok h2
+       · exact field_ok h3
+       · exact field_ok h4)
     | (unfold validateWavelength at h
        obtain ⟨w, h1, h⟩ := bindE _ _ _ h
-       obtain ⟨w', h2, h⟩ := bindE _ _ _ h
        cases h
        intro na hna
        simp only [List.mem_cons, List.not_mem_nil, or_false] at hna
        subst hna
-       exact ⟨_, (asFloat_ok h2) ▸ field_ok h1⟩)
+       exact fieldF_ok h1)
     | (unfold validateBeamCx at h
        obtain ⟨q0, h0, h⟩ := bindE _ _ _ h
-       obtain ⟨q1, h0', h⟩ := bindE _ _ _ h
        obtain ⟨⟨eb, qeb⟩, p1, h⟩ := bindE _ _ _ h
        obtain ⟨⟨ti, qti⟩, p2, h⟩ := bindE _ _ _ h
        obtain ⟨⟨ni, qni⟩, p3, h⟩ := bindE _ _ _ h
@@ -322,17 +324,17 @@ theorem stored_arrays_are_inputs (u : UpdFn) (r : Rate) (v : Val) (h : u.validat
        intro na hna
        simp only [List.mem_cons, List.not_mem_nil, or_false] at hna
        rcases hna with rfl | rfl | rfl | rfl | rfl | rfl | rfl | rfl | rfl | rfl | rfl
-       · exact ⟨_, e1.1⟩
-       · exact ⟨_, e2.1⟩
-       · exact ⟨_, e3.1⟩
-       · exact ⟨_, e4.1⟩
-       · exact ⟨_, e5.1⟩
-       · exact ⟨_, (asFloat_ok h0') ▸ field_ok h0⟩
-       · exact ⟨_, e1.2⟩
-       · exact ⟨_, e2.2⟩
-       · exact ⟨_, e3.2⟩
-       · exact ⟨_, e4.2⟩
-       · exact ⟨_, e5.2⟩)
+       · exact e1.1
+       · exact e2.1
+       · exact e3.1
+       · exact e4.1
+       · exact e5.1
+       · exact fieldF_ok h0
+       · exact e1.2
+       · exact e2.2
+       · exact e3.2
+       · exact e4.2
+       · exact e5.2)
     | (unfold validateBeamRate at h
        obtain ⟨e, h1, h⟩ := bindE _ _ _ h
        obtain ⟨n, h2, h⟩ := bindE _ _ _ h
@@ -345,22 +347,18 @@ theorem stored_arrays_are_inputs (u : UpdFn) (r : Rate) (v : Val) (h : u.validat
        obtain ⟨tref, r3, h⟩ := bindE _ _ _ h
        obtain ⟨sref, r4, h⟩ := bindE _ _ _ h
        cases h
-       obtain ⟨x1, f1, g1⟩ := bindE _ _ _ r1
-       obtain ⟨x2, f2, g2⟩ := bindE _ _ _ r2
-       obtain ⟨x3, f3, g3⟩ := bindE _ _ _ r3
-       obtain ⟨x4, f4, g4⟩ := bindE _ _ _ r4
        intro na hna
        simp only [List.mem_cons, List.not_mem_nil, or_false] at hna
        rcases hna with rfl | rfl | rfl | rfl | rfl | rfl | rfl | rfl | rfl
-       · exact ⟨_, field_ok h1⟩
-       · exact ⟨_, field_ok h2⟩
-       · exact ⟨_, field_ok h3⟩
-       · exact ⟨_, field_ok h4⟩
-       · exact ⟨_, field_ok h5⟩
-       · exact ⟨_, (asFloat_ok g1) ▸ field_ok f1⟩
-       · exact ⟨_, (asFloat_ok g2) ▸ field_ok f2⟩
-       · exact ⟨_, (asFloat_ok g3) ▸ field_ok f3⟩
-       · exact ⟨_, (asFloat_ok g4) ▸ field_ok f4⟩)
+       · exact field_ok h1
+       · exact field_ok h2
+       · exact field_ok h3
+       · exact field_ok h4
+       · exact field_ok h5
+       · exact fieldF_ok r1
+       · exact fieldF_ok r2
+       · exact fieldF_ok r3
+       · exact fieldF_ok r4)
 
 /-! ## keys ↔ files -/
 
@@ -439,6 +437,13 @@ theorem writes_under_root (T : Tables) (op : Op) (hR : ∀ i inps r, op = .ins i
 theorem writes_under_root_of_tables (T : Tables) (hW : T.wellFormed = true) (op : Op) (fs : FS) (p : Path)
     (hp : ¬ resolve op.root <+: p) : (op.run T fs).1.read p = fs.read p :=
   writes_under_root T op (fun i _ _ _ => rootPassed_of T ((wellFormed_iff T).mp hW).2.2.2.2 i) fs p hp
+
+/-- … and neither do `install_files` and `populate`, when the tables say every front-end call hands the root on -/
+theorem front_ends_write_under_root (T : Tables) (hW : T.wellFormed = true) (cfg : List (InstallFn × List UpdInput))
+    (wl : UpdInput) (root : Option Path) (fs : FS) (p : Path) (hp : ¬ resolve root <+: p) :
+    (installFiles T cfg root fs).1.read p = fs.read p ∧ (populate T cfg wl root fs).1.read p = fs.read p :=
+  ⟨installFiles_read T ((wellFormed_iff T).mp hW).2.2.2.2 root p hp cfg fs,
+   populate_read T ((wellFormed_iff T).mp hW).2.2.2.2 cfg wl root fs p hp⟩
 
 /-- **`add_matches_update`** (generic half): with well-formed tables `add_y(args…, rate, root)` is
 `update_<family of y>` applied to the one-entry dictionary `wrap` builds, with the class string `y` is named after -/
